@@ -9,6 +9,6 @@ Definition extracted_grammar : grammar :=
     ("Factor", (PChoice [(PAct "Factor2" (PSeq [(PLit "("); (PRef "_"); (PRef "Expression"); (PRef "_"); (PLit ")")])); (PRef "Iri"); (PAct "Factor11" (PLit "@type"))]));
     ("Iri", (PAct "Iri1" (PSeq [(PPlus (PClass ["_"%char; "-"%char] [("a"%char, "z"%char); ("A"%char, "Z"%char); ("0"%char, "9"%char)])); (PLit "."); (PPlus (PClass ["."%char; "\"%char; "/"%char; "_"%char; "-"%char] [("a"%char, "z"%char); ("A"%char, "Z"%char); ("0"%char, "9"%char)])); (PRef "_"); (POpt (PClass [""""%char; "^"%char; """"%char; ","%char; """"%char; "*"%char; """"%char] []))])));
     ("_", (PStar (PClass [" "%char; "010"%char; "009"%char; "013"%char] []))) ].
-Definition parse_path_anchored : bool := false.
+Definition parse_path_anchored : bool := true.
 Definition parse_path_returns_error : bool := true.
 Definition trim_cutset : list Ascii.ascii := [" "%char; "010"%char; "009"%char; "013"%char].
